@@ -16,6 +16,22 @@ pub fn viol(property: &'static str, sig: String, detail: String) -> Violation {
     Violation { property, sig, detail }
 }
 
+/// The scenario's goal predicate, evaluated by the harness (metric ball and, if present, the
+/// component condition).
+pub fn goal_sat(geo: &dyn Geo, g: &GoalSpec, s: &[f64]) -> bool {
+    if !(geo.d(&g.target, s) <= g.radius) {
+        return false;
+    }
+    match &g.comp {
+        None => true,
+        Some(cc) => {
+            let lay = crate::spaces::layout(geo.spec());
+            let off = crate::spaces::comp_offset(&lay, cc.comp);
+            crate::spaces::comp_dist(&lay[cc.comp], &s[off..off + lay[cc.comp].width()], &cc.c) <= cc.r
+        }
+    }
+}
+
 pub struct Eval<'a> {
     pub scn: &'a Scenario,
     pub out: &'a Outcome,
@@ -145,11 +161,11 @@ impl<'a> Eval<'a> {
         }
         let last = p.last().unwrap();
         let dg = self.geo.d(&prob.goal.target, last);
-        if !(dg <= prob.goal.radius) {
+        if !goal_sat(&*self.geo, &prob.goal, last) {
             v.push(viol(
                 "C02",
                 format!("C02/last_not_goal/{}", self.pk()),
-                format!("path.last()={} is at distance {dg} from the goal target, radius {}", fmt_state(last), prob.goal.radius),
+                format!("path.last()={} does not satisfy the goal: distance {dg} from the target (radius {}), component condition {:?}", fmt_state(last), prob.goal.radius, prob.goal.comp),
             ));
         }
         true
